@@ -1,4 +1,4 @@
 """C13 — capacity is enforced and cost accounting matches residency."""
 from props import cachelib
 def run(ctx):
-    cachelib.run(ctx, "C13", [("capacity", 6), ("register", 1), ("snapshot", 1)], 3600, 90000, stress=100)
+    cachelib.run(ctx, "C13", [("capacity", 6), ("register", 1), ("snapshot", 1)], 3600, 60000, stress=100)
